@@ -5,7 +5,7 @@ import ast
 import pickle
 
 from ..cfg import CFG
-from ..engine import AnalysisError, PropertySpec, norm
+from ..engine import AnalysisError, MechanismMissing, PropertySpec, norm
 from ..pyutil import call_name, calls, const_str, is_name, walk_local
 from ._api import API
 from .c01 import covers, handler_classes
@@ -52,12 +52,12 @@ def r21_1(ctx, rep):
     R = "R21.1"
     atomic, opens_final, found = _atomic(ctx, R)
     if not found:
-        raise AnalysisError(R, "cache file path (… + '.pymoca_cache') not found in save_model")
+        raise MechanismMissing(R, "cache file path (… + '.pymoca_cache') not found in save_model")
     fn = ctx.func(API, "load_model", R)
     cfg = CFG(fn, R)
     loads = [x for x in cfg.stmts() if any(call_name(c) == "pickle.load" for c in calls(x.ast))]
     if not loads:
-        raise AnalysisError(R, "pickle.load not found in load_model")
+        raise MechanismMissing(R, "pickle.load not found in load_model")
     total = True
     missing_all = []
     for ln in loads:
